@@ -238,6 +238,12 @@ class SimNet:
         outcome = plan.get("outcome", "ok")
         lat = plan.get("latency", 0.001)
         w = self.world
+        if outcome == "netunreach_sync":
+            # no route to the host: a non-blocking connect() fails at once with ENETUNREACH instead of EINPROGRESS,
+            # so the whole connect attempt of the library fails without ever yielding to the event loop
+            w.fire("connect_netunreach_sync")
+            w.rec("tcp_failed", fd=sock._fd, addr=addr, outcome=outcome)
+            raise OSError(errno.ENETUNREACH, "Network is unreachable")
         token = object()
         self.pending[sock._fd] = token
 
